@@ -51,7 +51,7 @@ DEFOP(parse) {
     SpellOpts so; so.bom = sr.chance(1, 10); so.ws = (int)sr.below(3); so.escapes = sr.chance(2, 3); so.numspell = sr.chance(2, 3);
     std::string text = serialize_value(v, sr, so);
     int entry = (int)((uint64_t)st.A(2) % 4);
-    int flags = (int)st.A(3);
+    int flags = (int)(st.A(3) & 7);
     bool req = flags & 1, wantend = flags & 2, term = (flags & 4) || req || entry < 2;
     std::string bytes = text;
     if (term) bytes.push_back('\0');
@@ -67,8 +67,8 @@ DEFOP(parse) {
     release_input(in);
     if (w.tolerate_failure(r == nullptr)) { mv_free(v); return; }
     if (!r) { std::string d = mv_dump(v, 80); mv_free(v); w.mismatch("parse", "valid text was rejected: " + show_bytes(text, 120) + " denoting " + d); return; }
-    v->c = nullptr;
-    w.slots[slot] = v;  // bound and compared by the structural walk after the step
+    v->c = r;
+    w.slots[slot] = v;  // inner nodes are bound and compared by the structural walk after the step
     w.log.add("parse entry " + I(entry) + " flags " + I(flags) + " len " + I((int64_t)text.size()) + " -> s" + I(slot) + " " + mv_dump(v, 60));
 }
 
